@@ -19,6 +19,7 @@ import (
 	"fmt"
 	"math/rand/v2"
 	"sort"
+	"strings"
 	"sync/atomic"
 	"testing"
 
@@ -404,7 +405,14 @@ func c10Run(r *verifkit.Run, i int, seed uint64, cfg e2Cfg, crash c10Crash, ref 
 			// a kernel that dies right after start did not start
 			w.quiesce()
 		}
-		if !w.alive() && !w.wdFired {
+		if !w.alive() && !w.wdFired && c10TimedSendPanic(w) {
+			// the machine died of its 100 ms timed send to the consensus manager (known finding of
+			// C09, keyed by that site): whether that happens depends on the wall clock of a loaded
+			// machine, not on the stores, so the restart is not judged here.
+			agg.mu.Lock()
+			agg.counts["unjudged.run-ended-by-timed-send-panic"]++
+			agg.mu.Unlock()
+		} else if !w.alive() && !w.wdFired {
 			tr := w.trace()
 			add("C10:statemachine:restart-failed:"+c10FailReason(tr, w.inst.n),
 				"after %s the state machine restarted on the same stores did not keep running (first round entrance seen: %v)", crash, started)
@@ -495,7 +503,11 @@ func c10Run(r *verifkit.Run, i int, seed uint64, cfg e2Cfg, crash c10Crash, ref 
 	}
 
 	// (4) same history, same end.
-	if ref != nil && res.restarted && len(findings) == 0 && !w.wdFired {
+	if ref != nil && res.restarted && len(findings) == 0 && !w.wdFired && c10TimedSendPanic(w) {
+		agg.mu.Lock()
+		agg.counts["unjudged.run-ended-by-timed-send-panic"]++
+		agg.mu.Unlock()
+	} else if ref != nil && res.restarted && len(findings) == 0 && !w.wdFired {
 		refE := ref.entrances[0]
 		post := res.entrances[len(res.entrances)-1]
 		okSuffix := false
@@ -578,6 +590,20 @@ func c10Run(r *verifkit.Run, i int, seed uint64, cfg e2Cfg, crash c10Crash, ref 
 		r.Sample(map[string]any{"case": caseID, "validators": cfg.nVals, "entrances": fmt.Sprint(res.entrances), "reference_entrances": fmt.Sprint(ref.entrances), "events": je})
 	}
 	return res
+}
+
+// c10TimedSendPanic reports whether a goroutine of the machine under test died of the
+// 100 ms timed send in handleProposalViewUpdate ("TODO: handle blocked send to ..."), which C09
+// lists as a known finding by site. Its occurrence is decided by the wall clock.
+func c10TimedSendPanic(w *e2World) bool {
+	w.log.mu.Lock()
+	defer w.log.mu.Unlock()
+	for _, e := range w.log.evs {
+		if e.K == e2kPanic && strings.Contains(e.Err, "TODO: handle blocked send to") {
+			return true
+		}
+	}
+	return false
 }
 
 func c10Heights(m map[uint64]string) []uint64 {
